@@ -277,6 +277,15 @@ def run(fx, chk, tier):
         else:
             chk.bad("R-PURE", key, o["how"], o["site"], o.get("detail"))
     chk.floor("R-PURE", "purity obligations", npure, 10)
+    # ---------------- R-IMAGE (instances owned by C04 S8)
+    chk.rule("R-IMAGE", "the sample tables the lookups consult are the tables of the file: the decoders of stsz/stsc/stco/co64/stts/ctts/stss do not rewrite what they read (C04 S8 instances)")
+    import c04
+    from packs_common import compose
+    TABLES = ("StszBox", "StscBox", "StcoBox", "Co64Box", "SttsBox", "CttsBox", "StssBox")
+
+    def s8_only(fx_, sub):
+        c04.s8(fx_, sub, c04.models(fx_))
+    compose(fx, chk, tier, "R-IMAGE", "C04", ["S8"], keyfilter=lambda o: o["key"].split("|")[0] in TABLES, floor=7, what="sample-table decoders", fn=s8_only)
     return chk.finish(
         "other",
         "Absent-table defaults, the count source, lower-bound table footprints, the dimensional consistency of every lookup operation (units, absolute/relative, file/run scope, 64-bit byte and tick arithmetic) and the purity of the lookups are checked on HIR/MIR. "
